@@ -129,10 +129,51 @@ def corner_stream(ck, replay):
     ck.coverage['corner_callees'] = len(idx)
 
 
+def seq_stream(ck, tier, replay):
+    """one decorated function called several times in a row: each call is judged on its own against the model of THAT call
+    (state carried from one call of the wrapper to the next - a shared generator, a counter - shows here)"""
+    if replay is not None:
+        seqs = [replay['case']['seq']]
+    else:
+        seqs = []
+        for _ in range(150 if tier == 'quick' else 1500):
+            names, single = ck.rng.choice(SPECS)
+            spec = [U[n] for n in names]
+            calls = []
+            for _ in range(ck.rng.choice([2, 3, 4, 6])):
+                ln = ck.rng.choice([0, 0, 1, 2, 3, 5])
+                outs = [ck.rng.choice([['raise', s] for s in spec] + [['raise', spec[0] + [1]]]) for _ in range(ln)]
+                tail = ck.rng.choice([['ret'], ['ret'], ['ret'], ['raise', spec[0]], ['raise', [0, 30]]])
+                calls.append({'outs': outs, 'tail': tail})
+            seqs.append({'mode': 'deco_seq', 'attempts': ck.rng.choice([1, 2, 3, 3, 4, 5, 8]), 'spec': spec, 'single': single, 'calls': calls})
+    impl = ck.run_impl('w_retry', seqs, timeout=600)
+    flat = [(si, ci) for si, sq in enumerate(seqs) for ci in range(len(sq['calls']))]
+    sub = lambda si, ci: dict(seqs[si], outs=seqs[si]['calls'][ci]['outs'], tail=seqs[si]['calls'][ci]['tail'])
+    model = ck.coq_eval(PRE, [coq_case(sub(si, ci)) for si, ci in flat]) if ck.model_ok else [None] * len(flat)
+    bad_corr = []
+    for (si, ci), m in zip(flat, model):
+        r = impl[si]
+        i = None if r is None or 'error' in r else r['calls'][ci] if ci < len(r['calls']) else None
+        ck.note_case('seq-%s' % json.dumps([seqs[si]['attempts'], seqs[si]['spec'], seqs[si]['calls'][:ci + 1]]), nontrivial=ci >= 1)
+        corr, prop, what = judge(sub(si, ci), i if i is not None else r, m)
+        if corr and prop:
+            ck.traces_validated += 1
+        if not prop:
+            ck.violation(f'call {ci + 1} of {len(seqs[si]["calls"])} on one decorated function: ' + what,
+                         {'obs': 'seq', 'seq': dict(seqs[si], calls=seqs[si]['calls'][:ci + 1]), 'outs': seqs[si]['calls'][ci]['outs'],
+                          'attempts': seqs[si]['attempts']}, stream='deco-seq', extra={'impl': i, 'model': m})
+            break
+        elif not corr:
+            bad_corr.append({'seq': seqs[si], 'call': ci, 'impl': i, 'model': m, 'what': what})
+    ck.oblige('correspondence:retry-sequences', 'correspondence', not bad_corr,
+              json.dumps(bad_corr[0])[:900] if bad_corr else f'{len(flat)} calls in {len(seqs)} call sequences agree')
+    ck.coverage['call_sequences'] = {'sequences': len(seqs), 'calls': len(flat)}
+
+
 def run(tier, seed, replay=None):
     ck = Check('C15', tier, seed, UNITS, MODEL, PROPS)
     ck.prepare()
-    if replay is not None and replay['case'].get('obs') == 'corner':
+    if replay is not None and replay['case'].get('obs') in ('corner', 'seq'):
         cases = []
     else:
         cases = gen_cases(ck.rng, tier) if replay is None else [replay['case']]
@@ -157,6 +198,9 @@ def run(tier, seed, replay=None):
     ck.violations.sort(key=lambda v: (len(v['case']['outs']), abs(v['case']['attempts'])))
     if replay is None or replay['case'].get('obs') == 'corner':
         corner_stream(ck, replay)
+    if replay is None or replay['case'].get('obs') == 'seq':
+        seq_stream(ck, tier, replay)
+    ck.violations.sort(key=lambda v: (len(json.dumps(v['case'])),))
     ck.oblige('correspondence:retry', 'correspondence', not disagreements,
               json.dumps(disagreements[0])[:900] if disagreements else f'{ck.traces_validated} traces agree')
     if cases:
